@@ -5,6 +5,7 @@ import (
 
 	"github.com/nyaruka/goflow/envs"
 	"github.com/nyaruka/goflow/excellent/types"
+	"github.com/shopspring/decimal"
 )
 
 // Concatenate joins two text values together.
@@ -103,8 +104,15 @@ var Divide = numericalBinary(func(env envs.Environment, num1 *types.XNumber, num
 //
 // @operator exponent "^"
 var Exponent = numericalBinary(func(env envs.Environment, num1 *types.XNumber, num2 *types.XNumber) types.XValue {
+	// the result has as many digits as the exponent is large, so a huge exponent would never finish being calculated
+	if num2.Native().Abs().GreaterThan(maxExponent) {
+		return types.NewXErrorf("exponent %s is out of range", num2.Render())
+	}
+
 	return types.NewXNumber(num1.Native().Pow(num2.Native()))
 })
+
+var maxExponent = decimal.New(10000, 0)
 
 // LessThan returns true if the first number is less than the second.
 //
